@@ -133,11 +133,14 @@ partial def targetsItems : Items → List Nat
   | .cons _ _ _ b r => targetsSs b ++ targetsItems r
 end
 
-/-- `_generate_module` / `_generate_signals`: expected declaration of signal `i`. -/
+/-- `_generate_module` / `_generate_signals`: expected declaration of signal `i` (every `reg`, port or not,
+    carries the `= reset` initialiser). -/
 def expectDecl (f : FModule) (ios wires targets : List Nat) (i : Nat) : String × Option VExpr :=
   let d := f.sigs.getD i default
   if ios.contains i then
-    if targets.contains i then (if wires.contains i then "ow" else "or", none) else ("iw", none)
+    if targets.contains i then
+      (if wires.contains i then ("ow", none) else ("or", some (printConst d.reset d.w d.s).1))
+    else ("iw", none)
   else if wires.contains i then ("w", none)
   else ("r", some (printConst d.reset d.w d.s).1)
 
